@@ -701,6 +701,9 @@ class SSHChannel(Generic[AnyStr], SSHPacketHandler):
 
         self._close_send()
 
+        # Unsent data was discarded, so a paused session can be resumed
+        self._pause_resume_writing()
+
         self._recv_eof_pending = self._recv_state == 'eof_pending'
         self._recv_state = 'close_pending'
         self._flush_recv_buf()
